@@ -3,6 +3,7 @@ package drive
 import (
 	"encoding/json"
 	"fmt"
+	"io"
 	"time"
 
 	"github.com/ulikunitz/xz"
@@ -114,6 +115,43 @@ func configTable(c *hx.Ctx, kind string) {
 				gotDict = b.DictCap
 			}
 		})
+		// the constructors must agree with Verify: an invalid record yields an error (never a nil
+		// object with a nil error), a valid one an object
+		if p == nil && dict <= 1<<26 {
+			var cerr error
+			var obj any
+			cp := safely(func() {
+				switch kind {
+				case "xz":
+					w, e := xz.WriterConfig{Properties: props, DictCap: dict, BufSize: row.Cfg.Buf, BlockSize: row.Cfg.Block, CheckSum: byte(row.Cfg.Check), NoCheckSum: row.Cfg.None, Matcher: lzma.MatchAlgorithm(row.Cfg.Matcher)}.NewWriter(io.Discard)
+					cerr = e
+					if w != nil {
+						obj = w
+					}
+				case "lzma2":
+					w, e := lzma.Writer2Config{Properties: props, DictCap: dict, BufSize: row.Cfg.Buf, Matcher: lzma.MatchAlgorithm(row.Cfg.Matcher)}.NewWriter2(io.Discard)
+					cerr = e
+					if w != nil {
+						obj = w
+					}
+				case "lzma":
+					w, e := lzma.WriterConfig{Properties: props, DictCap: dict, BufSize: row.Cfg.Buf, Matcher: lzma.MatchAlgorithm(row.Cfg.Matcher), SizeInHeader: row.Cfg.Sih, Size: row.Cfg.Size}.NewWriter(io.Discard)
+					cerr = e
+					if w != nil {
+						obj = w
+					}
+				default:
+					cerr = err
+					if err == nil {
+						obj = true
+					}
+				}
+			})
+			if cp != nil || (cerr == nil) != (err == nil) || (cerr == nil) != (obj != nil) {
+				c.Violation(map[string]string{"kind": "config-constructor", "record": kind, "expect_ok": fmt.Sprint(row.Ok)},
+					fmt.Sprintf("%s configuration %+v: Verify says %v but the constructor returned object=%v err=%v panic=%v", kind, row.Cfg, err, obj != nil, cerr, cp), map[string]any{"record": kind, "row": row})
+			}
+		}
 		c.Count(1, 1)
 		sig := map[string]string{"kind": "config-table", "record": kind, "expect_ok": fmt.Sprint(row.Ok)}
 		replay := map[string]any{"record": kind, "row": row}
